@@ -608,11 +608,8 @@ func (c *compiler) arrayOperator(l interface{}, r interface{}, op string) (inter
 		}
 
 		elemType := reflect.TypeOf(l).Elem()
-		if elemType.Kind() != reflect.Interface {
-			t := reflect.ValueOf(r).Type()
-			if elemType != t {
-				err = fmt.Errorf("cannot append '%v' (untyped %s constant) as %s value in assignment", r, t, elemType)
-			}
+		if t := reflect.ValueOf(r).Type(); !t.AssignableTo(elemType) {
+			err = fmt.Errorf("cannot append '%v' (untyped %s constant) as %s value in assignment", r, t, elemType)
 		}
 		if err == nil {
 			return reflect.Append(reflect.ValueOf(l), reflect.ValueOf(r)), nil
